@@ -1,6 +1,7 @@
 import PvModel.Props.C24
 import PvModel.Props.C24Sem
 import PvModel.Props.C24Count
+import PvModel.Props.C24First
 #print axioms Pv.C24_cons
 #print axioms Pv.C24_empty
 #print axioms Pv.C24_cons_sound
@@ -33,3 +34,6 @@ import PvModel.Props.C24Count
 #print axioms Pv.C24_member1_one_per_value
 #print axioms Pv.C24_listLen_literal
 #print axioms Pv.C24_count_start
+#print axioms Pv.C24_first
+#print axioms Pv.C24_rest
+#print axioms Pv.C24_cons_empty
